@@ -164,7 +164,14 @@ func evalExpr(expr string) (typ string, val constant.Value, ok bool) {
 	return t, tv.Value, true
 }
 
-func valueEqual(v interface{}, c constant.Value) bool {
+func valueEqual(v interface{}, c constant.Value) (eq bool) {
+	// (the rendered expression may denote a constant of another KIND altogether - a string where a number was given:
+	// go/constant panics on such comparisons; that is simply "not equal")
+	defer func() {
+		if recover() != nil {
+			eq = false
+		}
+	}()
 	switch x := v.(type) {
 	case bool:
 		return c.Kind() == constant.Bool && constant.BoolVal(c) == x
